@@ -266,6 +266,7 @@ def thread_run(jp, rec, R, run_id):
     env = JSONPathEnvironment()
     T = R.randint(4, 8)
     jobs = []
+    fresh_env = JSONPathEnvironment()   # not touched before the threads start: its first use is concurrent
     # some compiled query objects are shared by all threads (evaluated concurrently on different documents)
     shared = {}
     for text in R.sample(SPECIAL, 5) + [gen_query_text(R) for _ in range(3)]:
@@ -278,7 +279,7 @@ def thread_run(jp, rec, R, run_id):
     shared_texts = sorted(shared)
     burst = ["$.b%d_%d[?@.x == %d]" % (run_id.__hash__() % 97, i, i) for i in range(40)]
     for t in range(T):
-        mine = []
+        mine = [(R.choice(["$[?length(@.name) == 2]", "$[?match(@.name, 'a.*')]", "$[?count(@.*) > 1]", "$[?search(@.s, 'b')]", "$[?value(@.id) == 1]"]), make_doc(R), "fresh-env")]
         for _ in range(R.randint(6, 14)):
             r = R.random()
             if r < 0.35 and shared_texts:
@@ -322,6 +323,9 @@ def thread_run(jp, rec, R, run_id):
                     if how.startswith("shared-"):
                         q = shared[text]
                         how = how[7:]
+                    elif how == "fresh-env":
+                        q = fresh_env.compile(text)
+                        how = "list"
                     else:
                         q = env.compile(text)
                     if how == "list":
